@@ -272,15 +272,20 @@ def install(rec):
                 G = vk.conj().T @ Bv
                 E = np.abs(G - np.eye(G.shape[0]))
                 otol = 1e-8 if dense_path else 1e-5
+                mech_o = f"{entry}:orthonormal"
                 if not dense_path:
-                    # ARPACK/lobpcg do not orthogonalise vectors inside an exactly
-                    # degenerate eigenspace (third-party behaviour): only pairs
-                    # with separated eigenvalues, and the norms, are judged
+                    # inside an exactly degenerate eigenspace the iterative drivers
+                    # return whatever basis they converged to: for real symmetric
+                    # problems that basis is orthonormal, for complex Hermitian ones
+                    # scipy's general ARPACK driver does not orthogonalise it - the
+                    # property still asks for it, so it is judged, under its own key
                     sep = np.abs(lk[:, None] - lk[None, :]) > 1e-6 * scale
-                    E = E * (sep | np.eye(len(lk), dtype=bool))
+                    Esep = E * (sep | np.eye(len(lk), dtype=bool))
+                    if float(Esep.max()) <= otol * max(d, 1) < float(E.max()):
+                        mech_o = f"{entry}:orthonormal:within_degenerate_level"
                 off = float(E.max())
                 rec.check(entry, "orthonormal", off <= otol * max(d, 1),
-                          mech=f"{entry}:orthonormal",
+                          mech=mech_o,
                           detail=dict(detail, off=off), sig=sig)
         # (2) order
         if sort and len(lk) > 1:
